@@ -10,6 +10,7 @@ import (
 	"pgregory.net/rapid"
 
 	"verif/harness/memnet"
+	"verif/harness/pbt"
 )
 
 // Round 10: a FATAL fault of the listener / socket while the server is running.
@@ -67,12 +68,12 @@ func fatalError(kind string) error {
 }
 
 // drawFatal draws the fault (after every other draw of the scenario). force: every case gets one
-// (sub scenario-fault); otherwise one case in eight of those that can have it.
+// (sub scenario-fault); otherwise about one case in ten of those that can have it (rapid favours the small values of a range).
 func drawFatal(t *rapid.T, s *Scenario, force bool) {
 	if !fatalTransport(s.Transport) || s.drain() || s.shutting() {
 		return
 	}
-	if !force && rapid.IntRange(0, 7).Draw(t, "fatalOn") != 0 {
+	if !force && rapid.IntRange(0, 15).Draw(t, "fatalOn") != 0 {
 		return
 	}
 	var f Fatal
@@ -136,6 +137,7 @@ func genFault(t *rapid.T) Scenario {
 	}
 	drawExtras(t, &s)
 	drawFatal(t, &s, true)
+	drawLateHandover(t, &s)
 	return s
 }
 
@@ -269,4 +271,57 @@ func (r *run) fatalClasses(names []string, call int) []string {
 // fatalServeTag is the serve.return(...) event of a serve call that returned the injected error.
 func (r *run) fatalServeTag() string {
 	return fmt.Sprintf("serve.return(%s)", errTag(fatalError(r.s.Fatal.Kind)))
+}
+
+// ---------------------------------------------------------------------------------------------
+// Round 10, remark: a Reader that is still busy with a request when ShutdownContext gives up.
+//
+// drawLateHandover (drawn last; about one case in ten of those without a fatal fault, every transport) makes
+// the schedule  request read -> Shutdown called with a context that has expired (or expires at the
+// call) -> Shutdown returns the context's error -> the Reader returns the request to the serve loop.
+// The Reader is the scenario's DecorateReader wrapper: it is held at its interposition point
+// reader.return(...), after the library's own reader has returned, until shutdown.return is logged.
+// Oracle (invariants, I3 for a Shutdown that gave up): the request must not get a handler.
+func drawLateHandover(t *rapid.T, s *Scenario) {
+	if s.fatal() || s.drain() || s.shutting() {
+		return
+	}
+	if rapid.IntRange(0, 15).Draw(t, "lateHandoverOn") != 0 {
+		return
+	}
+	if pbt.Known(knownLateHandover) {
+		pbt.Excluded(knownLateHandover)
+		return
+	}
+	if len(s.Clients) == 0 {
+		s.Clients = append(s.Clients, Client{Close: "end"})
+	}
+	c := &s.Clients[0]
+	c.StartAt = ""
+	if len(c.Reqs) == 0 {
+		c.Reqs = append(c.Reqs, Req{Mode: "fast"})
+	}
+	at := "reader.return(pc,*,ok)"
+	if s.stream() {
+		at = "reader.return(1,1,ok)"
+	}
+	s.Trigger = at
+	if s.FallbackMs < 150 {
+		s.FallbackMs = 150
+	}
+	s.Ctx, s.CtxAPI = "expired", false
+	if rapid.Bool().Draw(t, "lateHandoverCtxAtCall") {
+		s.Ctx, s.CtxAt = "expireAt", "shutdown.call"
+	}
+	dropMisuse(s, "secondShutdown") // the call that gives up is the effective one
+	var ws []memnet.Wait
+	for _, w := range s.Waits {
+		if afterShutdown(w.At) || !afterShutdown(w.For) {
+			ws = append(ws, w)
+		}
+	}
+	s.Waits = append(ws, memnet.Wait{At: at, For: "shutdown.return(*)", Once: true, TimeoutMs: 300})
+	if s.hasRestart() && s.Restart.When != "complete" {
+		s.Restart.When, s.Restart.Release1 = "complete", ""
+	}
 }
